@@ -7,7 +7,7 @@ use serde::{Deserialize, Serialize};
 use serde_json::json;
 
 use super::common::*;
-use crate::engine::{chunk, Failure, Prop, Stats, Tier, F};
+use crate::engine::{catch, chunk, Failure, Prop, Stats, Tier, F};
 use crate::gen::{self, circ_diff, ParamSpec, Site};
 
 pub struct C13;
@@ -57,7 +57,10 @@ fn bound(i: usize, lat: f64) -> Option<i64> {
 }
 
 fn day_values(site: &Site, params: &islamic_prayer_times::Params, date: NaiveDate) -> [Option<i64>; 6] {
-    let times = compute_p(site, params, date, None);
+    // a library panic on one day is reported as "no value" for that day; panics are C07's subject
+    let Ok(times) = catch(|| compute_p(site, params, date, None)) else {
+        return [None; 6];
+    };
     let mut v = [None; 6];
     for (i, p) in SIX.iter().enumerate() {
         v[i] = t(&times, *p);
